@@ -621,12 +621,28 @@ func (tr *FnTr) builtinCopy(dst, src Val) Val {
 		srcArr = Select(tr.st.Mem, sobj)
 	}
 	n := tr.vc.Def("copy_n", Ite(Lt(dl, sl), dl, sl))
-	tr.copyCells(dst.L[0], dst.L[1], srcArr, soff, Mul(n, Int(int64(es))))
+	tr.copyCellsT(dst.L[0], dst.L[1], srcArr, soff, Mul(n, Int(int64(es))), elemTagOf(dst.T))
 	return Val{L: []*Term{n}}
 }
 
 // copyCells writes cnt cells from srcArr[soff..] into object dobj at doff.
-func (tr *FnTr) copyCells(dobj, doff, srcArr, soff, cnt *Term) {
+// elemTagOf: the cell type of the elements of a slice of single-cell basic elements ("" otherwise)
+func elemTagOf(T types.Type) string {
+	sl, ok := T.Underlying().(*types.Slice)
+	if !ok {
+		return ""
+	}
+	if lay := layoutOf(sl.Elem()); lay.N() == 1 && (lay.Leaves[0].K == LInt || lay.Leaves[0].K == LBool) {
+		return leafTag(lay.Leaves[0])
+	}
+	return ""
+}
+
+func (tr *FnTr) copyCells(dobj, doff, srcArr, soff, cnt *Term) { tr.copyCellsT(dobj, doff, srcArr, soff, cnt, "") }
+
+// copyCellsT: etag is the cell type of every cell written (if known): reads of other cell
+// types skip the copy.
+func (tr *FnTr) copyCellsT(dobj, doff, srcArr, soff, cnt *Term, etag string) {
 	tr.writeCheck(dobj, doff, Add(doff, cnt))
 	old := Select(tr.st.Mem, dobj)
 	if c := cnt.IntConst(); c != nil && c.IsInt64() && c.Int64() <= 80 {
@@ -634,6 +650,9 @@ func (tr *FnTr) copyCells(dobj, doff, srcArr, soff, cnt *Term) {
 		src := tr.vc.Def("copy_src", srcArr)
 		for k := int64(0); k < c.Int64(); k++ {
 			a = Store(a, Add(doff, Int(k)), Select(src, Add(soff, Int(k))))
+			if etag != "" {
+				a.Name = etag
+			}
 		}
 		tr.st.Mem = tr.vc.Def("mem", Store(tr.st.Mem, dobj, a))
 		return
@@ -658,6 +677,12 @@ func (tr *FnTr) copyCells(dobj, doff, srcArr, soff, cnt *Term) {
 	j := Sym("j!q", SInt)
 	in := And(Le(doff, j), Lt(j, Add(doff, cnt)))
 	tr.vc.Assume(Forall([]*Term{j}, Eq(Select(na, j), Ite(in, Select(src, Add(soff, Sub(j, doff))), Select(oldD, j))), Select(na, j)))
+	if etag != "" {
+		st := mk("store", SMem, tr.st.Mem, dobj, na)
+		st.Name = "hv:" + etag
+		tr.st.Mem = tr.vc.Def("mem", st)
+		return
+	}
 	tr.st.Mem = tr.vc.Def("mem", Store(tr.st.Mem, dobj, na))
 }
 
@@ -682,7 +707,7 @@ func (tr *FnTr) builtinAppend(x *ssa.Call, args []Val) Val {
 	fits := tr.vc.Def("app_fits", Le(newLen, s.L[3]))
 	pre := tr.st
 	// case 1: in place
-	tr.copyCells(s.L[0], Add(s.L[1], Mul(s.L[2], Int(int64(es)))), srcArr, aoff, Mul(addLen, Int(int64(es))))
+	tr.copyCellsT(s.L[0], Add(s.L[1], Mul(s.L[2], Int(int64(es)))), srcArr, aoff, Mul(addLen, Int(int64(es))), elemTagOf(s.T))
 	memFit := tr.st.Mem
 	// case 2: new object with the old prefix copied
 	tr.st = pre
@@ -872,6 +897,22 @@ func (tr *FnTr) invoke(x *ssa.Call, cc *ssa.CallCommon) Val {
 // are initialised") are assumed in every state: at entry and after every abstracted call.
 func (tr *FnTr) assumeGlobals() {
 	eng := tr.eng
+	// package variables declared immutable hold in every state what they held at entry
+	if len(eng.immutables) > 0 && tr.top.entry.Mem != nil && tr.st.Mem != tr.top.entry.Mem {
+		for g := range eng.globals {
+			if g.Pkg == nil || !eng.immutables[g.Pkg.Pkg.Path()+"."+g.Name()] {
+				continue
+			}
+			id := Int(eng.globalID(g))
+			n := sizeOf(g.Type().Underlying().(*types.Pointer).Elem())
+			var cs []*Term
+			for k := 0; k < n && k < 16; k++ {
+				cs = append(cs, Eq(Select(Select(tr.st.Mem, id), Int(int64(k))), Select(Select(tr.top.entry.Mem, id), Int(int64(k)))))
+			}
+			tr.vc.Assume(Implies(tr.st.Reach, And(cs...)))
+			tr.vc.Assumed = appendUniq(tr.vc.Assumed, "package variable assumed immutable after initialisation: "+shortPkg(g.Pkg.Pkg.Path())+"."+g.Name())
+		}
+	}
 	for _, g := range eng.globals_ {
 		sp := eng.pkgs[g.Pkg]
 		if sp == nil {
